@@ -13,6 +13,7 @@ import (
 	"encoding/json"
 	"fmt"
 	"math/rand"
+	"net/url"
 	"os"
 	"os/exec"
 	"path/filepath"
@@ -44,6 +45,9 @@ type target struct {
 	NowMS  int64             `json:"now_ms"`
 	Query  string            `json:"query,omitempty"` // extra query (patch: publishTime=…)
 	Patch  bool              `json:"patch,omitempty"`
+	// AsDate: the instant is given as ?nowDate= (the handler adds 1 ms to a date, so the date is the
+	// instant minus 1 ms; written without a fraction when that is a whole second)
+	AsDate bool `json:"as_date,omitempty"`
 }
 
 func (t target) with(f, v string) target {
@@ -69,6 +73,15 @@ func (t target) url() string {
 	if t.Query != "" {
 		sb.WriteString(t.Query + "&")
 	}
+	if t.AsDate {
+		d := time.UnixMilli(t.NowMS - 1).UTC()
+		layout := "2006-01-02T15:04:05.000Z"
+		if (t.NowMS-1)%1000 == 0 {
+			layout = "2006-01-02T15:04:05Z"
+		}
+		sb.WriteString("nowDate=" + url.QueryEscape(d.Format(layout)))
+		return sb.String()
+	}
 	fmt.Fprintf(&sb, "nowMS=%d", t.NowMS)
 	return sb.String()
 }
@@ -83,6 +96,7 @@ type historyEnv struct {
 	reps     map[string]map[string]*lib.TLRep
 	hasDRM   bool
 	kindList []string
+	pause    map[string]int // URL -> pause between servings in its fresh processes
 }
 
 func serverMod(env *historyEnv) func(cfg *app.ServerConfig) {
@@ -98,7 +112,7 @@ func newHistoryEnv() (*historyEnv, error) {
 	if err != nil {
 		return nil, err
 	}
-	env := &historyEnv{root: root, cleanup: cleanup, segMS: map[string]int64{}, reps: map[string]map[string]*lib.TLRep{}}
+	env := &historyEnv{root: root, cleanup: cleanup, segMS: map[string]int64{}, reps: map[string]map[string]*lib.TLRep{}, pause: map[string]int{}}
 	if err := os.CopyFS(filepath.Join(root, altAsset), os.DirFS(filepath.Join(lib.TestVodRoot, altAsset))); err != nil {
 		cleanup()
 		return nil, err
@@ -150,7 +164,7 @@ func newHistoryEnv() (*historyEnv, error) {
 		"timesubs":     {"", "timesubsstpp_en,sv/", "timesubswvtt_en/"},
 		"mode":         {"", "segtimeline_1/", "segtimelinenr_1/"},
 	}
-	env.kindList = []string{"session", "presentation", "protection", "chunk", "ato", "numbering", "fault", "periods", "timesubs", "mode", "time", "time-backwards", "error", "repeat", "sibling", "form"}
+	env.kindList = []string{"session", "presentation", "protection", "chunk", "ato", "numbering", "fault", "periods", "timesubs", "mode", "time", "time-backwards", "instant-form", "error", "repeat", "sibling", "form"}
 	env.prep, err = lib.NewLivesim(root, serverMod(env))
 	if err != nil {
 		cleanup()
@@ -215,6 +229,19 @@ func (env *historyEnv) targets(asset string, now int64) []target {
 			}
 		}
 	}
+	// options that are relative to the request instant, and a shifted clock
+	rel := func(fam string, opts map[string]string, rest string, at int64) {
+		t := mk(fam, opts, rest)
+		t.NowMS = at
+		ts = append(ts, t)
+	}
+	whole := (now/1000)*1000 + 1 // nowDate without a fraction
+	rel("mpd-startrel-stoprel", map[string]string{"session": "startrel_-20/stoprel_20/", "mode": "segtimeline_1/"}, "Manifest.mpd", now)
+	rel("mpd-startrel-whole-second", map[string]string{"session": "startrel_-30/", "mode": "segtimelinenr_1/"}, "Manifest.mpd", whole)
+	rel("mpd-stoprel-past", map[string]string{"session": "startrel_-60/stoprel_-10/"}, "Manifest.mpd", now)
+	rel("mpd-timeoffset", map[string]string{"session": "timeoffset_-1.5/", "mode": "segtimeline_1/"}, "Manifest.mpd", now)
+	rel("media-startrel", map[string]string{"session": "startrel_-20/"}, "V300/3.m4s", now)
+	rel("media-timeoffset", map[string]string{"session": "timeoffset_2/"}, fmt.Sprintf("V300/%d.m4s", n), now)
 	// refused requests are responses too: the same status and body whenever and wherever they are asked
 	bad := func(fam string, opts map[string]string, rest string) { ts = append(ts, mk("error-"+fam, opts, rest)) }
 	bad("bad-value", map[string]string{"numbering": "tsbd_x/"}, "Manifest.mpd")
@@ -373,6 +400,12 @@ func (env *historyEnv) neighbours(t target, kind string) []string {
 		d := t.with("numbering", "tsbd_x/")
 		e := t.with("protection", "drm_nosuchpackage/")
 		out = append(out, a.url(), b.url(), c.url(), d.url(), e.url())
+	case "instant-form": // the same instant, given as a date
+		if !t.AsDate {
+			x := t
+			x.AsDate = true
+			out = append(out, x.url())
+		}
 	case "repeat": // map-iteration nondeterminism needs several tries to show
 		for k := 0; k < 5; k++ {
 			out = append(out, t.url())
@@ -463,7 +496,7 @@ func (env *historyEnv) histories(ts []target) []history {
 	var hs []history
 	for _, t := range ts {
 		for _, k := range env.kindList {
-			if strings.HasPrefix(t.Family, "error-") && k != "repeat" && k != "time" && k != "sibling" && k != "form" && k != "protection" {
+			if strings.HasPrefix(t.Family, "error-") && k != "repeat" && k != "time" && k != "sibling" && k != "form" && k != "protection" && k != "instant-form" {
 				continue // refused requests: repeats, other instants, siblings, other forms, other protection
 			}
 			nb := env.neighbours(t, k)
@@ -482,6 +515,8 @@ type refIn struct {
 	Root string `json:"root"`
 	DRM  bool   `json:"drm"`
 	URL  string `json:"url"`
+	// PauseMS: wait so long between the second and the third serving (a wall-clock leak shows)
+	PauseMS int `json:"pause_ms,omitempty"`
 }
 
 func refChild(args []string) {
@@ -502,6 +537,9 @@ func refChild(args []string) {
 	}
 	var ps []proj
 	for k := 0; k < 4; k++ {
+		if k == 2 && in.PauseMS > 0 {
+			time.Sleep(time.Duration(in.PauseMS) * time.Millisecond)
+		}
 		ps = append(ps, project(ls.Get(in.URL)))
 	}
 	data, _ := json.Marshal(ps)
@@ -565,7 +603,7 @@ func freshAnswersN(env *historyEnv, urls []string, procs int) (out map[string]pr
 			defer wg.Done()
 			for j := range work {
 				u := j.u
-				arg, _ := json.Marshal(refIn{Root: env.root, DRM: env.hasDRM, URL: u})
+				arg, _ := json.Marshal(refIn{Root: env.root, DRM: env.hasDRM, URL: u, PauseMS: env.pause[u]})
 				cmd := exec.Command(exe, "refchild", string(arg))
 				envName := childEnv(cmd, j.k, env.root)
 				res, err := cmd.Output()
@@ -641,6 +679,27 @@ func runHistories(c *lib.Ctx) (int, error) {
 			urls = append(urls, u)
 		}
 	}
+	// the instant in its other form: ?nowDate= instead of ?nowMS=
+	dateOf := map[string]string{}
+	var dateURLs []string
+	for _, t := range ts {
+		d := t
+		d.AsDate = true
+		du := d.url()
+		dateOf[t.url()] = du
+		if !seen[du] {
+			seen[du] = true
+			dateURLs = append(dateURLs, du)
+		}
+		// a real second between identical requests: everywhere in the thorough tier, for the
+		// instant-relative options and a sample of the rest in the quick tier
+		if c.Thorough() || t.Opts["session"] != "" || t.Patch {
+			env.pause[du] = 1100
+			if c.Thorough() || t.Opts["session"] != "" {
+				env.pause[t.url()] = 1100
+			}
+		}
+	}
 	procs := 2
 	if c.Thorough() {
 		procs = 4
@@ -649,8 +708,32 @@ func runHistories(c *lib.Ctx) (int, error) {
 	if err != nil {
 		return 0, err
 	}
+	dfresh, dunstable, err := freshAnswersN(env, dateURLs, procs/2)
+	if err != nil {
+		return 0, err
+	}
+	for u, p := range dfresh {
+		fresh[u] = p
+	}
+	for u, w := range dunstable {
+		unstable[u] = w
+	}
 	for _, u := range urls {
 		c.Count(fmt.Sprintf("history-target-status:%d", fresh[u].Status))
+	}
+	for _, t := range ts {
+		du := dateOf[t.url()]
+		if why, bad := unstable[du]; bad {
+			d := t
+			d.AsDate = true
+			c.Fail("history:"+du, "history:"+t.Family+":repeat-fresh", fmt.Sprintf("%s asked repeatedly of fresh instances (a real second apart): %s", du, why),
+				c07in{Kind: "history", URL: du, Mode: "repeat-fresh", History: &history{Target: d, Kind: "repeat-fresh", Reqs: []string{du, du}}})
+			delete(unstable, du)
+		} else if fresh[du] != fresh[t.url()] {
+			c.Fail("history:"+du, "history:"+t.Family+":instant-form", fmt.Sprintf("the same request with the instant as a date and as milliseconds, each asked of a fresh instance: %s -> %v; %s -> %v", du, fresh[du], t.url(), fresh[t.url()]),
+				c07in{Kind: "history", URL: t.url(), Mode: "instant-form", History: &history{Target: t, Kind: "instant-form", Reqs: []string{du, t.url()}}})
+		}
+		c.Count("history:" + t.Family + ":instant-form-fresh")
 	}
 	for _, t := range ts {
 		if why, bad := unstable[t.url()]; bad {
@@ -659,6 +742,12 @@ func runHistories(c *lib.Ctx) (int, error) {
 			delete(unstable, t.url())
 		}
 	}
+	t0 := time.Now()
+	lap := func(name string) {
+		c.Res.Notes = append(c.Res.Notes, fmt.Sprintf("histories/%s: %.1fs", name, time.Since(t0).Seconds()))
+		t0 = time.Now()
+	}
+	lap("fresh processes")
 	reported := map[string]int{}
 	check := func(mode string, h history, got proj) {
 		want, ok := fresh[h.Target.url()]
@@ -688,6 +777,7 @@ func runHistories(c *lib.Ctx) (int, error) {
 		check("sequential", h, last)
 		c.Count("history:" + h.Target.Family + ":" + h.Kind)
 	}
+	lap("sequential")
 	// concurrent: the same sequences from 8 goroutines on a second instance
 	long2, err := lib.NewLivesim(env.root, serverMod(env))
 	if err != nil {
@@ -717,6 +807,7 @@ func runHistories(c *lib.Ctx) (int, error) {
 		check("8 goroutines", h, got[i])
 		n += len(h.Reqs)
 	}
+	lap("8 goroutines")
 	// storm: several different requests of ONE family at the same time (pooled buffers, shared scratch
 	// state): 16 goroutines loop over a handful of variants of the family's target
 	stormFor := 80 * time.Millisecond
@@ -796,6 +887,7 @@ func runHistories(c *lib.Ctx) (int, error) {
 			break
 		}
 	}
+	lap("storm")
 	keys := make([]string, 0, len(reported))
 	for k := range reported {
 		keys = append(keys, k)
@@ -863,13 +955,13 @@ func stormOnly(seed int64) error {
 	}
 	done := map[string]bool{}
 	for _, t := range ts {
-		if done[t.Family] {
+		if done[t.Family] || strings.HasPrefix(t.Family, "error-") {
 			continue
 		}
 		done[t.Family] = true
 		vs := env.variants(t)
 		var wg sync.WaitGroup
-		deadline := time.Now().Add(120 * time.Millisecond)
+		deadline := time.Now().Add(80 * time.Millisecond)
 		for g := 0; g < 4*runtime.GOMAXPROCS(0); g++ {
 			wg.Add(1)
 			go func(g int) {
